@@ -729,4 +729,41 @@ theorem acCliqueAdds_gap (x : Label → Rat) (hx : ∀ v, x v = 1 ∨ x v = -1) 
       have := acCliqueRow_bound x hx hf a
       grind
 
+/-! ## chimera: the tile edges -/
+
+theorem mem_rangeStep (a b s x : Nat) (hs : 0 < s) : x ∈ rangeStep a b s ↔ ∃ q, x = a + s * q ∧ a + s * q < b := by
+  unfold rangeStep
+  simp only [List.mem_map, List.mem_range]
+  have key : ∀ q, q < (b - a + s - 1) / s ↔ a + s * q < b := by
+    intro q
+    rw [Nat.lt_div_iff_mul_lt hs]
+    have : q * s = s * q := Nat.mul_comm q s
+    omega
+  constructor
+  · rintro ⟨q, hq, rfl⟩; exact ⟨q, rfl, (key q).mp hq⟩
+  · rintro ⟨q, rfl, hq⟩; exact ⟨q, (key q).mpr hq, rfl⟩
+
+theorem mul_lt_iff (s q n : Nat) (hs : 0 < s) : s * q < n * s ↔ q < n := by
+  rw [Nat.mul_comm n s]; exact Nat.mul_lt_mul_left hs
+
+theorem offset_lt_iff (i V q m : Nat) (hi : i < V) : i + V * q < m * V ↔ q < m := by
+  rw [Nat.mul_comm m V]
+  constructor
+  · intro h
+    apply Classical.byContradiction
+    intro hq
+    have : V * m ≤ V * q := Nat.mul_le_mul_left V (by omega)
+    omega
+  · intro h
+    have h1 : V * (q + 1) ≤ V * m := Nat.mul_le_mul_left V (by omega)
+    have h2 : V * (q + 1) = V * q + V := Nat.mul_succ V q
+    omega
+
+theorem offset_lt_sub_iff (i V q n : Nat) (hi : i < V) : i + V * q < n * V - V ↔ q + 1 < n := by
+  have h2 : V * (q + 1) = V * q + V := Nat.mul_succ V q
+  have key := offset_lt_iff i V (q + 1) n hi
+  constructor
+  · intro h; apply key.mp; omega
+  · intro h; have := key.mpr h; omega
+
 end Gen
